@@ -13,6 +13,7 @@ fn main() {
     match args[1].as_str() {
         // vh conc <scenario+jobs.ndjson> <out.ndjson> [ops]
         "conc" => conc::run_file(&args[2], &args[3], args.get(4).map(|s| s == "ops").unwrap_or(false)),
+        "seq" => conc::run_seq(&args[2], &args[3]),
         other => {
             eprintln!("unknown subcommand {}", other);
             std::process::exit(2);
